@@ -147,6 +147,21 @@ func guard(f func() ([]parquet.Row, error)) pathResult {
 	}
 }
 
+// tooManyHangs: every timeout leaves a spinning goroutine behind; after a few
+// of them the remaining cases are skipped (the violations are already recorded)
+func tooManyHangs(c *core.Ctx) bool {
+	if hangs < 20 {
+		return false
+	}
+	if !hangNoted {
+		hangNoted = true
+		c.Note("run cut short after %d paths did not return (endless loops in the implementation); the violations found so far are reported", hangs)
+	}
+	return true
+}
+
+var hangNoted bool
+
 // guardPath runs path p unless it was switched off
 func guardPath(p int, f func() ([]parquet.Row, error)) pathResult {
 	if pathDisabled[p] {
@@ -1609,8 +1624,11 @@ func runC03(c *core.Ctx) {
 	perType := c.N(30, 0)
 	for ti, ct := range cats {
 		rng := rand.New(rand.NewSource(c.Rng.Int63()))
+		if tooManyHangs(c) {
+			break
+		}
 		if c.Quick() {
-			for k := 0; k < perType; k++ {
+			for k := 0; k < perType && !tooManyHangs(c); k++ {
 				n := sizes[(k*7+ti*3)%len(sizes)]
 				if k%3 == 2 {
 					n = 1 + rng.Intn(200)
@@ -1622,11 +1640,11 @@ func runC03(c *core.Ctx) {
 				}
 			}
 		} else {
-			for n := 1; n <= 200; n++ {
+			for n := 1; n <= 200 && !tooManyHangs(c); n++ {
 				rows := genBatch(rng, ct, n)
 				runCase(c, ct, rows, randSplit(rng, n), "gen/"+ct.name, n <= 3)
 			}
-			for k := 0; k < 60; k++ {
+			for k := 0; k < 60 && !tooManyHangs(c); k++ {
 				n := sizes[rng.Intn(len(sizes))]
 				rows := genBatch(rng, ct, n)
 				runCase(c, ct, rows, randSplit(rng, n), "gen/"+ct.name, false)
